@@ -188,6 +188,13 @@ def arrangements(schema, rng, d):
     a, b, c = perm[:third], perm[third:2 * third], perm[2 * third:]
     mk('split3', {'main.xsd': render_file(a, ['p1.xsd', 'p2.xsd']), 'p1.xsd': render_file(b), 'p2.xsd': render_file(c, ['p1.xsd'])})
     mk('split3_chain', {'main.xsd': render_file(c, ['p1.xsd']), 'p1.xsd': render_file(a, ['p2.xsd']), 'p2.xsd': render_file(b)})
+    # a nested include resolved against the including document's directory; an unrelated file with the same name sits next to
+    # the main document; the main document is loaded by path, by path + base_url option, and as text + base_url option
+    nested = {'main.xsd': render_file(c, ['parts/p1.xsd']), 'parts/p1.xsd': render_file(a, ['p2.xsd']), 'parts/p2.xsd': render_file(b),
+              'p2.xsd': render_file([])}
+    mk('nested_dirs', nested)
+    mk('nested_dirs_baseurl', nested)
+    mk('nested_dirs_text', nested)
     return out
 
 
@@ -223,7 +230,12 @@ def subject(case):
     try:
         for label, main in arrangements(case['schema'], rng, d):
             try:
-                s = cls(main)
+                if label == 'nested_dirs_baseurl':
+                    s = cls(main, base_url=os.path.dirname(main))
+                elif label == 'nested_dirs_text':
+                    s = cls(open(main).read(), base_url=os.path.dirname(main))
+                else:
+                    s = cls(main)
                 fresh_copy = _copy.copy(s) if label == 'original' else None     # copied before any use
                 out[label] = observe(s, case['docs'])
                 if label == 'original':
@@ -618,6 +630,92 @@ def check_chameleon(ctx):
                               % (arr, CH_DOCS[i], str(r['probes'][i])[:100], str(ref['probes'][i])[:100]), rep)
 
 
+# ------------------------------------------------------------------ XSD 1.1 defaultAttributes across documents
+DA_HEAD = ('<xs:schema xmlns:xs="http://www.w3.org/2001/XMLSchema" targetNamespace="urn:c09d" xmlns:t="urn:c09d" '
+           'elementFormDefault="qualified"%s>%s')
+DA_DECLS = {
+    'DA': '<xs:attributeGroup name="DA"><xs:attribute name="da" type="xs:int"/></xs:attributeGroup>',
+    'T': '<xs:complexType name="T"><xs:sequence><xs:element name="x" type="xs:string" minOccurs="0"/></xs:sequence></xs:complexType>',
+    'U': '<xs:complexType name="U" defaultAttributesApply="false"><xs:complexContent><xs:extension base="t:T"><xs:attribute name="u" type="xs:int"/></xs:extension>'
+         '</xs:complexContent></xs:complexType>',
+    'root': '<xs:element name="root" type="t:T"/>', 'root2': '<xs:element name="root2" type="t:U"/>',
+}
+DA_DOCS = ['<t:root xmlns:t="urn:c09d" da="5"/>', '<t:root xmlns:t="urn:c09d" da="x"/>', '<t:root xmlns:t="urn:c09d"/>',
+           '<t:root2 xmlns:t="urn:c09d" da="5" u="1"/>', '<t:root2 xmlns:t="urn:c09d" da="x" u="1"/>', '<t:root xmlns:t="urn:c09d" zz="1"/>']
+
+
+def subject_default_attrs(case):
+    import warnings
+    import xmlschema
+    warnings.simplefilter('ignore')
+    d = os.path.join(str(common.BUILD), 'tmp', 'c09_da_%d_%d' % (os.getpid(), case['n']))
+    shutil.rmtree(d, ignore_errors=True)
+    os.makedirs(d)
+    attr = ' defaultAttributes="t:DA"'
+    try:
+        main, inc = case['main'], case['inc']
+        with open(os.path.join(d, 'main.xsd'), 'w') as f:
+            f.write(DA_HEAD % (attr, ('<xs:include schemaLocation="%s"/>' % case['loc'] if inc else '') +
+                               ''.join(DA_DECLS[n] for n in main) + '</xs:schema>'))
+        if inc:
+            with open(os.path.join(d, 'inc.xsd'), 'w') as f:
+                f.write(DA_HEAD % (attr, ''.join(DA_DECLS[n] for n in inc) + '</xs:schema>'))
+        try:
+            s = xmlschema.XMLSchema11(os.path.join(d, 'main.xsd'))
+            out = observe(s, DA_DOCS)
+            out['globals']['attributes of T'] = sorted(str(k) for k in s.types['T'].attributes)
+            out['globals']['attributes of U'] = sorted(str(k) for k in s.types['U'].attributes)
+            if case.get('rebuild'):
+                s.maps.clear()
+                s.build()
+                out2 = observe(s, DA_DOCS)
+                out2['globals']['attributes of T'] = sorted(str(k) for k in s.types['T'].attributes)
+                out2['globals']['attributes of U'] = sorted(str(k) for k in s.types['U'].attributes)
+                out = out2
+            return out
+        except Exception as e:  # noqa
+            return {'exc': common.exc_class(e) + ': ' + ' '.join(str(e).split())[:160]}
+    finally:
+        shutil.rmtree(d, ignore_errors=True)
+
+
+def check_default_attrs(ctx):
+    rng = ctx.rng
+    names = list(DA_DECLS)
+    ref = {'main': names, 'inc': [], 'loc': 'inc.xsd'}
+    group = [ref, dict(ref, main=names[::-1]), dict(ref, rebuild=True)]
+    for _ in range(6 if ctx.quick() else 40):
+        order = names[:]
+        rng.shuffle(order)
+        cut = rng.randrange(1, len(order))
+        group.append({'main': order[:cut], 'inc': order[cut:], 'loc': rng.choice(['inc.xsd', './inc.xsd']), 'rebuild': rng.random() < 0.3})
+    # the attribute group and the complex types in different documents, either way round
+    group.append({'main': ['T', 'U', 'root', 'root2'], 'inc': ['DA'], 'loc': 'inc.xsd'})
+    group.append({'main': ['DA', 'root', 'root2'], 'inc': ['T', 'U'], 'loc': 'inc.xsd'})
+    flat = [dict(c, n=i) for i, c in enumerate(group)]
+    res = common.pool_map(subject_default_attrs, flat, procs=4)
+    r0 = res[0]
+    if 'exc' in r0 or 'harness_exception' in r0:
+        ctx.violation('XSD 1.1 defaultAttributes: the reference arrangement does not build: %s' % (r0.get('exc') or r0.get('harness_exception')),
+                      {'kind': 'default-attrs', 'case': ref}, no_input=True)
+        return
+    for c, r in zip(group[1:], res[1:]):
+        ctx.count(('default-attrs', json.dumps(c, sort_keys=True)), nontrivial=True)
+        ctx.dist('arrangement', 'XSD 1.1 defaultAttributes: ' + ('split' if c['inc'] else 'single document') + (' + rebuild' if c.get('rebuild') else ''))
+        arr = 'main document %s, included %s%s' % ('+'.join(c['main']), '+'.join(c['inc']) or 'nothing', ', built twice' if c.get('rebuild') else '')
+        rep = {'kind': 'default-attrs', 'case': c}
+        if 'exc' in r or 'harness_exception' in r:
+            ctx.violation('XSD 1.1 defaultAttributes: %s fails: %s' % (arr, r.get('exc') or r.get('harness_exception')), rep)
+        elif r['globals'] != r0['globals']:
+            diff = {k: v for k, v in r['globals'].items() if v != r0['globals'][k]}
+            ctx.violation('XSD 1.1 defaultAttributes: %s gives other global components %s (single document: %s)'
+                          % (arr, str(diff)[:150], str({k: r0['globals'][k] for k in diff})[:150]), rep)
+        elif r['probes'] != r0['probes']:
+            i = next(i for i, (a, b) in enumerate(zip(r['probes'], r0['probes'])) if a != b)
+            ctx.violation('XSD 1.1 defaultAttributes: %s: %s gives %s, single document %s'
+                          % (arr, DA_DOCS[i], str(r['probes'][i])[:100], str(r0['probes'][i])[:100]), rep)
+
+
 def gen(ctx):
     import random
     rng = ctx.rng
@@ -652,6 +750,7 @@ def run(ctx):
         check_corpus(ctx)
         check_redefine(ctx)
         check_chameleon(ctx)
+        check_default_attrs(ctx)
     finally:
         cleanup()
     ctx.assumptions = ['component construction is a deterministic function of a declaration and of the components it references '
@@ -668,6 +767,8 @@ def replay(ctx, case):
             check_redefine(ctx)
         elif case.get('kind') == 'chameleon':
             check_chameleon(ctx)
+        elif case.get('kind') == 'default-attrs':
+            check_default_attrs(ctx)
         else:
             evaluate(ctx, [case['case']])
     finally:
